@@ -39,7 +39,7 @@ def red(kind, a: Arr, sort=RS):
 
 
 def ew(name, f, a: Arr, elem="real"):
-    return Arr(a.n, elem, lambda i, _a=a, _f=f: _f(_a.at(i)), f"{name}({a.key})", a.meta)
+    return Arr(a.n, elem, lambda i, _at=a.at, _f=f: _f(_at(i)), f"{name}({a.key})", a.meta, a.facts)
 
 
 def as_arr_or_scalar(v):
@@ -106,6 +106,8 @@ class Registry:
             key = f"arr.{attr}"
             if key in self.handlers:
                 return Fn(self.handlers[key], key, bound=o)
+            if attr == "at":
+                return Obj("jax_at", {"arr": o})
             if attr == "T":
                 return Arr(o.n, o.elem, o.at, f"T({o.key})", dict(o.meta, transposed=not o.meta.get("transposed", False)))
             if attr == "shape":
@@ -248,9 +250,9 @@ class Registry:
 
     def arr_unop(self, i, op, a, n):
         if op == "neg":
-            return Arr(a.n, a.elem, lambda k, _a=a: -_a.at(k), f"neg({a.key})", a.meta)
+            return Arr(a.n, a.elem, lambda k, _at=a.at: -_at(k), f"neg({a.key})", a.meta)
         if op == "not":
-            return Arr(a.n, "bool", lambda k, _a=a: z3.Not(_a.at(k)), f"not({a.key})", a.meta)
+            return Arr(a.n, "bool", lambda k, _at=a.at: z3.Not(_at(k)), f"not({a.key})", a.meta)
         raise Unsupported(op)
 
     def arr_compare(self, i, op, a, b, n):
@@ -271,9 +273,14 @@ OPSYM = {ast.Add: "+", ast.Sub: "-", ast.Mult: "*", ast.Div: "/", ast.Pow: "**",
 
 
 def arr_binop(i, op, a, b, n):
+    if isinstance(op, (ast.BitOr, ast.BitAnd)) and isinstance(a, Arr) and isinstance(b, Arr) and a.elem == b.elem == "bool":
+        f = z3.Or if isinstance(op, ast.BitOr) else z3.And
+        return Arr(a.n, "bool", lambda k, _x=a.at, _y=b.at: f(_x(k), _y(k)), f"({a.key}{'|' if isinstance(op, ast.BitOr) else '&'}{b.key})", a.meta)
     sym = OPSYM.get(type(op))
     if sym is None:
         raise Unsupported(f"array op {type(op).__name__}")
+    if (isinstance(a, Arr) and a.elem == "xreal") or (isinstance(b, Arr) and b.elem == "xreal") or (isinstance(a, Sym) and a.tag == "xreal") or (isinstance(b, Sym) and b.tag == "xreal"):
+        return xreal_binop(i, sym, a, b, n)
     if isinstance(a, Arr) and a.elem not in ("real", "int") or isinstance(b, Arr) and b.elem not in ("real", "int"):
         if isinstance(a, Arr) and a.elem == "row" or isinstance(b, Arr) and b.elem == "row":
             return row_binop(i, sym, a, b, n)
@@ -281,7 +288,7 @@ def arr_binop(i, op, a, b, n):
 
     def elem(v):
         if isinstance(v, Arr):
-            return (lambda k: z3.ToReal(v.at(k))) if v.elem == "int" else v.at
+            return (lambda k, _at=v.at: z3.ToReal(_at(k))) if v.elem == "int" else v.at
         t = scalar_term(v)
         return lambda k: t
 
@@ -369,8 +376,9 @@ SELMAP = uf("sel_map", Misc, IS, IS)         # source row of result row i under 
 MASKSEL = {}
 
 
-def take(a: Arr, nn, idxmap, key):
-    return Arr(nn, a.elem, lambda k, _a=a: _a.at(idxmap(k)), key, a.meta)
+def take(a: Arr, nn, idxmap, key, facts=None):
+    inherited = [(lambda k, _f=f: _f(idxmap(k))) for f in a.facts]
+    return Arr(nn, a.elem, lambda k, _at=a.at: _at(idxmap(k)), key, a.meta, inherited + list(facts or []))
 
 
 def arr_getitem(i, a: Arr, idx, n):
@@ -381,19 +389,24 @@ def arr_getitem(i, a: Arr, idx, n):
         i.path.ghost["last_mask"] = idx
         cnt = red("count", idx, IS)
         sel = uf(f"masksel<{idx.key}>", IS, IS)
-        return take(a, cnt, lambda k: sel(k), f"take({a.key},mask:{idx.key})")
+        # assumed contract of boolean-mask selection: row k of the result is source row sel(k), a row where the mask is True
+        fact = lambda k, _m=idx.at, _n=a.n: z3.And(_m(sel(k)), sel(k) >= 0, sel(k) < _n)  # noqa: E731
+        i.path.assume(z3.And(cnt >= 0, cnt <= a.n), check=False)
+        return take(a, cnt, lambda k: sel(k), f"take({a.key},mask:{idx.key})", [fact])
+    if isinstance(idx, Obj) and idx.cls == "slice":
+        idx = ("slice", idx.f["start"], idx.f["stop"], idx.f["step"])
     if isinstance(idx, tuple) and idx[0] == "slice":
         lo, hi, st = idx[1], idx[2], idx[3]
         if not isinstance(st, NoneV):
             raise Unsupported("strided slice of array")
         if isinstance(lo, NoneV) and isinstance(hi, NoneV):
-            return Arr(a.n, a.elem, a.at, a.key, a.meta)
+            return Arr(a.n, a.elem, a.at, a.key, a.meta, a.facts)
         if isinstance(lo, NoneV):
             h = to_int(hi)
             # a[:h] for 0 <= h: length min(h, n)
             i.path.prove(h >= 0, i.oname("slice-stop-nonnegative(encoding)", n), kind="encoding-side-condition")
             nn = z3.If(h <= a.n, h, a.n)
-            return Arr(nn, a.elem, a.at, f"{a.key}[:{z3.simplify(h).sexpr()}]", a.meta)
+            return Arr(nn, a.elem, a.at, f"{a.key}[:{z3.simplify(h).sexpr()}]", a.meta, a.facts)
         raise Unsupported("slice with lower bound on array")
     if isinstance(idx, Sym) and idx.tag == "index":
         return take(a, SELN(idx.e, a.n), lambda k: SELMAP(idx.e, k), f"take({a.key},{idx.e.sexpr()})")
@@ -412,7 +425,7 @@ def arr_getitem(i, a: Arr, idx, n):
         key = f"cols({a.key},{skey(idx.items[-1])})"
         f = uf("colsel", Row, Misc, Row)
         c = z3.Const(f"mask<{skey(idx.items[-1])}>", Misc)
-        return Arr(a.n, "row", lambda k, _a=a: f(_a.at(k), c), key, a.meta)
+        return Arr(a.n, "row", lambda k, _at=a.at: f(_at(k), c), key, a.meta)
     raise Unsupported(f"array index {idx!r}")
 
 
@@ -427,7 +440,7 @@ def install_arrays(reg: Registry):
             if isinstance(x, Arr):
                 if x.elem == "row":
                     f = uf(f"row_{_name}", Row, Row if _elem == "real" else BS)
-                    return Arr(x.n, "row" if _elem == "real" else "bool", lambda kk: f(x.at(kk)), f"{_name}({x.key})", x.meta)
+                    return Arr(x.n, "row" if _elem == "real" else "bool", lambda kk, _at=x.at: f(_at(kk)), f"{_name}({x.key})", x.meta)
                 return ew(_name, _fn, x, _elem)
             if isinstance(x, Z):
                 r = _fn(to_real(x))
@@ -442,6 +455,33 @@ def install_arrays(reg: Registry):
     unary("abs", ABS)
     unary("isnan", ISNAN, "bool")
     unary("isfinite", ISFINITE, "bool")
+    _isnan_real = reg.handlers["xp.isnan"]
+
+    @H("xp.isnan")
+    def xp_isnan(i, a, k, n):
+        x = a[0]
+        if isinstance(x, Arr) and x.elem == "xreal":
+            return Arr(x.n, "bool", lambda kk, _at=x.at: X.is_nan(_at(kk)), f"isnan({x.key})", x.meta)
+        return _isnan_real(i, a, k, n)
+
+    unary("isinf", uf("isinf", RS, BS), "bool")
+    _isinf_real = reg.handlers["xp.isinf"]
+
+    @H("xp.isinf")
+    def xp_isinf(i, a, k, n):
+        x = a[0]
+        if isinstance(x, Arr) and x.elem == "xreal":
+            return Arr(x.n, "bool", lambda kk, _at=x.at: z3.Or(X.is_pinf(_at(kk)), X.is_ninf(_at(kk))), f"isinf({x.key})", x.meta)
+        return _isinf_real(i, a, k, n)
+
+    _isfinite_real = reg.handlers["xp.isfinite"]
+
+    @H("xp.isfinite")
+    def xp_isfinite(i, a, k, n):
+        x = a[0]
+        if isinstance(x, Arr) and x.elem == "xreal":
+            return Arr(x.n, "bool", lambda kk, _at=x.at: X.is_fin(_at(kk)), f"isfinite({x.key})", x.meta)
+        return _isfinite_real(i, a, k, n)
     reg.handlers["math.log"] = reg.handlers["xp.log"]
     reg.handlers["math.sqrt"] = reg.handlers["xp.sqrt"]
     reg.handlers["math.exp"] = reg.handlers["xp.exp"]
@@ -465,6 +505,8 @@ def install_arrays(reg: Registry):
                 return R(red(_name, x))
             if isinstance(x, Z):
                 return x
+            if isinstance(x, Sym):
+                return R(z3.Real(f"{_name}<{x.e.sexpr()}>"))
             raise Unsupported(f"xp.{_name} of {x!r}")
         reg.handlers[f"arr.{name}"] = h
         return h
@@ -530,13 +572,20 @@ def install_arrays(reg: Registry):
             o, q = out, p
             if o.elem != q.elem:
                 raise Unsupported("concatenate of different element kinds")
-            out = Arr(o.n + q.n, o.elem, lambda kk, _o=o, _q=q: z3.If(kk < _o.n, _o.at(kk), _q.at(kk - _o.n)),
-                      f"concat({o.key},{q.key})", o.meta)
+            fo, fq, on = list(o.facts), list(q.facts), o.n
+            facts = [lambda kk, _fo=fo, _fq=fq, _on=on: z3.If(kk < _on, z3.And([f(kk) for f in _fo] + [z3.BoolVal(True)]),
+                                                                z3.And([f(kk - _on) for f in _fq] + [z3.BoolVal(True)]))]
+            out = Arr(o.n + q.n, o.elem, lambda kk, _on=o.n, _oa=o.at, _qa=q.at: z3.If(kk < _on, _oa(kk), _qa(kk - _on)),
+                      f"concat({o.key},{q.key})", o.meta, facts)
         return out
 
     @H("xp.where")
     def where(i, a, k, n):
         c, x, y = a
+        if any((isinstance(v, Arr) and v.elem == "xreal") or (isinstance(v, Sym) and v.tag == "xreal") for v in (x, y)):
+            ex, _ = xelem(x)
+            ey, _ = xelem(y)
+            return Arr(c.n, "xreal", lambda kk, _ca=c.at: z3.If(_ca(kk), ex(kk), ey(kk)), f"where({c.key},{skey(x)},{skey(y)})", c.meta)
 
         def el(v):
             if isinstance(v, Arr):
@@ -544,7 +593,7 @@ def install_arrays(reg: Registry):
             t = to_real(v)
             return lambda kk: t
         ex, ey = el(x), el(y)
-        return Arr(c.n, "real", lambda kk: z3.If(c.at(kk), ex(kk), ey(kk)), f"where({c.key},{skey(x)},{skey(y)})", c.meta)
+        return Arr(c.n, "real", lambda kk, _ca=c.at: z3.If(_ca(kk), ex(kk), ey(kk)), f"where({c.key},{skey(x)},{skey(y)})", c.meta)
 
     @H("xp.clip")
     def clip(i, a, k, n):
@@ -554,7 +603,7 @@ def install_arrays(reg: Registry):
         if isinstance(x, Arr):
             if x.elem == "row":
                 g = uf("row_clip", Row, RS, RS, Row)
-                return Arr(x.n, "row", lambda kk: g(x.at(kk), lo_t, hi_t), f"clip({x.key},{skey(lo)},{skey(hi)})", x.meta)
+                return Arr(x.n, "row", lambda kk, _at=x.at: g(_at(kk), lo_t, hi_t), f"clip({x.key},{skey(lo)},{skey(hi)})", x.meta)
             return ew(f"clip[{skey(lo)},{skey(hi)}]", f, x)
         return R(f(to_real(x)))
 
@@ -593,8 +642,58 @@ def install_arrays(reg: Registry):
         raise Unsupported(f"xp.asarray of {x!r}")
 
     reg.handlers["xp.array"] = xp_asarray
-    reg.consts["xp.nan"] = Sym(z3.Const("NaN", Misc), "nan")
-    reg.consts["xp.inf"] = Sym(z3.Const("Inf", Misc), "inf")
+    reg.consts["xp.nan"] = Sym(X.NAN, "xreal")
+    reg.consts["xp.inf"] = Sym(X.PINF, "xreal")
+
+    @H("arr.__setitem__")
+    def arr_setitem(i, a, k, n):
+        """x[mask] = y : in place on NumPy/Torch; raises TypeError on (immutable) JAX arrays - assumed contract, both outcomes explored"""
+        x, idx, y = a
+        assumed(i, "x[mask] = y assigns the masked elements in place (NumPy, Torch) or raises TypeError (JAX arrays are immutable)")
+        if i.path.choose(2, "setitem-immutable") == 1:
+            from .engine import RaiseSig
+            raise RaiseSig("TypeError", n)
+        masked_assign(x, idx, y, inplace=True)
+        return NONE
+
+    def masked_assign(x, idx, y, inplace):
+        if isinstance(idx, Tup):
+            # x[:, mask] = y : column assignment on a 2-D array - abstract row-wise function
+            f = uf("setcols", Row, Misc, Row, Row) if isinstance(y, Arr) and y.elem == "row" else uf("setcols_v", Row, Misc, Misc, Row)
+            c = z3.Const(f"mask<{skey(idx.items[-1])}>", Misc)
+            old_at = x.at
+            if isinstance(y, Arr) and y.elem == "row":
+                new_at = lambda kk: f(old_at(kk), c, y.at(kk))  # noqa: E731
+            else:
+                yc = z3.Const(f"val<{skey(y)}>", Misc)
+                new_at = lambda kk: f(old_at(kk), c, yc)  # noqa: E731
+            key = f"setcols({x.key},{skey(idx.items[-1])},{skey(y)})"
+        else:
+            if not (isinstance(idx, Arr) and idx.elem == "bool"):
+                raise Unsupported("masked assignment with a non-boolean index")
+            old_at = x.at
+            if x.elem == "xreal":
+                ey, _ = xelem(y)
+            else:
+                ty = to_real(y) if isinstance(y, Z) else None
+                ey = (lambda kk: ty) if ty is not None else y.at
+            new_at = lambda kk, _ia=idx.at: z3.If(_ia(kk), ey(kk), old_at(kk))  # noqa: E731
+            key = f"where({idx.key},{skey(y)},{x.key})"
+        if inplace:
+            x.at, x.key = new_at, key
+            return x
+        return Arr(x.n, x.elem, new_at, key, x.meta)
+
+    reg.masked_assign = masked_assign
+
+    @H("jax_at.__getitem__")
+    def jax_at_getitem(i, a, k, n):
+        return Obj("jax_at_idx", {"arr": a[0].f["arr"], "idx": a[1]})
+
+    @H("jax_at_idx.set")
+    def jax_at_set(i, a, k, n):
+        o = a[0]
+        return masked_assign(o.f["arr"], o.f["idx"], a[1], inplace=False)
     reg.consts["xp.pi"] = R(z3.Real("pi"))
 
     @H("xp.sqrt_scalar")
@@ -1085,3 +1184,49 @@ def install_random(reg: Registry):
         return g
 
     reg.handlers["np.random.default_rng"] = default_rng
+
+
+# ------------------------------------------------------------------------------ extended-real element mode (C05)
+from . import xreal as X  # noqa: E402
+
+
+def xelem(v):
+    """-> (at: k -> ER term, is_scalar_real: bool, real term or None)"""
+    if isinstance(v, Arr):
+        if v.elem == "xreal":
+            return v.at, None
+        if v.elem in ("real", "int"):
+            return (lambda k, _at=v.at, _r=(v.elem == "real"): X.fin(_at(k) if _r else z3.ToReal(_at(k)))), None
+        raise Unsupported(f"extended-real arithmetic on {v!r}")
+    if isinstance(v, Sym) and v.tag == "xreal":
+        return (lambda k: v.e), None
+    if isinstance(v, Z):
+        t = to_real(v)
+        return (lambda k: X.fin(t)), t
+    raise Unsupported(f"extended-real arithmetic on {v!r}")
+
+
+def xreal_binop(i, sym, a, b, n):
+    ea, ra = xelem(a)
+    eb, rb = xelem(b)
+    arrs = [v for v in (a, b) if isinstance(v, Arr)]
+    if len(arrs) == 2:
+        i.path.prove(arrs[0].n == arrs[1].n, i.oname("array-shapes-agree", n), kind="shape")
+    ka = a.key if isinstance(a, Arr) else skey(a)
+    kb = b.key if isinstance(b, Arr) else skey(b)
+    if sym == "+":
+        f = lambda k: X.xadd(ea(k), eb(k))  # noqa: E731
+    elif sym == "-":
+        f = lambda k: X.xadd(ea(k), X.xneg(eb(k)))  # noqa: E731
+    elif sym == "*":
+        if ra is not None:
+            f = lambda k: X.xscale(ra, eb(k))  # noqa: E731
+        elif rb is not None:
+            f = lambda k: X.xscale(rb, ea(k))  # noqa: E731
+        else:
+            f = lambda k: X.xmul(ea(k), eb(k))  # noqa: E731
+    else:
+        raise Unsupported(f"extended-real operator {sym}")
+    if not arrs:
+        return Sym(f(z3.IntVal(0)), "xreal")
+    return Arr(arrs[0].n, "xreal", f, f"({ka}{sym}{kb})", arrs[0].meta)
